@@ -45,14 +45,24 @@ func runC01(c *eng.Ctx, thorough bool) {
 		nPut++
 		args := s.Call.Common().Args
 		ent := args[len(args)-1]
+		sFn := s.Fn
+		// the write may sit in a local forwarding closure whose parameter is the entry: follow it to the closure's call sites
+		if p, isParam := ent.(*ssa.Parameter); isParam && sFn.Parent() != nil {
+			lits, ok := c01ClosureArgs(sFn, p)
+			if !ok || len(lits) != 1 {
+				c.Undecided(sFn, "barrier put entry", s.Call.Pos(), "the entry handed to the physical backend is a parameter of a closure whose call sites cannot all be resolved (moved? the rule cannot be evaluated)")
+				continue
+			}
+			ent, sFn = lits[0], sFn.Parent()
+		}
 		vals := eng.StructLitField(ent, "Value")
 		keys := eng.StructLitField(ent, "Key")
 		if len(vals) == 0 || len(keys) == 0 {
-			c.Violation(s.Fn, "barrier put entry", s.Call.Pos(), "the entry handed to the physical backend is not a local literal with Key and Value: cannot establish that the value is ciphertext", nil)
+			c.Violation(sFn, "barrier put entry", s.Call.Pos(), "the entry handed to the physical backend is not a local literal with Key and Value: cannot establish that the value is ciphertext", nil)
 			continue
 		}
 		for _, v := range vals {
-			c.Prov(s.Fn, "physical.Entry.Value written by the barrier", s.Call, v, `^call:barrier\.\(\*AESGCMBarrier\)\.(encrypt|encryptTracked)#0$`)
+			c.Prov(sFn, "physical.Entry.Value written by the barrier", s.Call, v, `^call:barrier\.\(\*AESGCMBarrier\)\.(encrypt|encryptTracked)#0$`)
 			// key binding: the key of the entry equals the path argument of that encrypt call
 			c.Clause("R5", "C01.2")
 			for _, o := range eng.Origins(v) {
@@ -67,9 +77,9 @@ func runC01(c *eng.Ctx, thorough bool) {
 				pathArg := call.Call.Args[1]
 				for _, k := range keys {
 					if k == pathArg || eng.ExprDeep(k) == eng.ExprDeep(pathArg) {
-						c.OK(s.Fn, "entry key == encrypt path", s.Call.Pos(), "Key "+eng.ExprDeep(k)+" is the path the value was encrypted under")
+						c.OK(sFn, "entry key == encrypt path", s.Call.Pos(), "Key "+eng.ExprDeep(k)+" is the path the value was encrypted under")
 					} else {
-						c.Violation(s.Fn, "entry key == encrypt path", s.Call.Pos(), fmt.Sprintf("entry is stored under key %s but was encrypted (authenticated) under path %s", eng.ExprDeep(k), eng.ExprDeep(pathArg)), nil)
+						c.Violation(sFn, "entry key == encrypt path", s.Call.Pos(), fmt.Sprintf("entry is stored under key %s but was encrypted (authenticated) under path %s", eng.ExprDeep(k), eng.ExprDeep(pathArg)), nil)
 					}
 				}
 			}
@@ -101,12 +111,12 @@ func runC01(c *eng.Ctx, thorough bool) {
 				continue
 			}
 			n++
-			c.Prov(f, "encrypt output", ret, ret.Results[0], `^call:<crypto/cipher\.AEAD>\.Seal$`)
+			c.Prov(f, "encrypt output", ret, ret.Results[0], `^call:`+c01AEAD("Seal")+`$`)
 		}
 		c.Floor(f, "success returns", n, 1)
 		c.Clause("R5", "C01.2")
-		seals := eng.Calls(f, `<crypto/cipher\.AEAD>\.Seal$`)
-		c.Floor(f, "Seal calls", len(seals), 2)
+		seals := eng.Calls(f, c01AEAD("Seal")+`$`)
+		c.Floor(f, "Seal calls", len(seals), 1)
 		bound := 0
 		for _, s := range seals {
 			a := s.Common().Args
@@ -134,7 +144,7 @@ func runC01(c *eng.Ctx, thorough bool) {
 		nilAAD := eng.PhiEdges(f, "aad", eng.IsNilConst)
 		if len(nilAAD) > 0 {
 			c.Clause("R2", "C01.2")
-			c.CutEdges(f, "aad = nil (current format)", nilAAD, eng.G(f, `^path == ""$`, true))
+			c.CutEdges(f, "aad = nil (current format)", nilAAD, eng.Or(eng.G(f, `^path == ""$`, true), eng.G(f, `^b\.currentAESGCMVersionByte == `+c01V1(c)+`$`, true)))
 		}
 		// the version written is the version whose arm runs
 		c.Clause("R7", "C01.2")
@@ -160,8 +170,8 @@ func runC01(c *eng.Ctx, thorough bool) {
 	}
 	if f := c.Fn("barrier.(*AESGCMBarrier).decrypt"); f != nil {
 		c.Clause("R5", "C01.2")
-		opens := eng.Calls(f, `<crypto/cipher\.AEAD>\.Open$`)
-		c.Floor(f, "Open calls", len(opens), 2)
+		opens := eng.Calls(f, c01AEAD("Open")+`$`)
+		c.Floor(f, "Open calls", len(opens), 1)
 		bound := 0
 		for _, o := range opens {
 			a := o.Common().Args
@@ -198,13 +208,13 @@ func runC01(c *eng.Ctx, thorough bool) {
 		c.Clause("R5", "C01.3")
 		for _, r := range succ {
 			ret := r.(*ssa.Return)
-			c.Prov(f, "decrypt result", ret, ret.Results[0], `^call:<crypto/cipher\.AEAD>\.Open#0$`)
-			c.Prov(f, "decrypt error", ret, ret.Results[1], `^call:<crypto/cipher\.AEAD>\.Open#1$`)
+			c.Prov(f, "decrypt result", ret, ret.Results[0], `^call:`+c01AEAD("Open")+`#0$`)
+			c.Prov(f, "decrypt error", ret, ret.Results[1], `^call:`+c01AEAD("Open")+`#1$`)
 		}
 		nilAAD := eng.PhiEdges(f, "aad", eng.IsNilConst)
 		if len(nilAAD) > 0 {
 			c.Clause("R2", "C01.2")
-			c.CutEdges(f, "aad = nil (current format)", nilAAD, eng.G(f, `^path == ""$`, true))
+			c.CutEdges(f, "aad = nil (current format)", nilAAD, eng.Or(eng.G(f, `^path == ""$`, true), eng.G(f, `^cipher\[4\] == `+c01V1(c)+`$`, true)))
 		}
 	}
 
@@ -499,6 +509,59 @@ func runC01(c *eng.Ctx, thorough bool) {
 		}
 	}
 	runC01Gaps2(c)
+}
+
+// c01AEAD: callee pattern of a cipher.AEAD method, selected by the resolved
+// callee: the interface invoke or a call through the bound method value
+// (`open := gcm.Open; open(...)`), which takes the same arguments.
+func c01AEAD(method string) string {
+	return `(<crypto/cipher\.AEAD>\.` + method + `|closure:\(crypto/cipher\.AEAD\)\.` + method + `\$bound)`
+}
+
+// c01V1: the legacy (unbound) record version, resolved from its constant.
+func c01V1(c *eng.Ctx) string {
+	v, ok := c.P.ConstValue("barrier.AESGCMVersion1")
+	if !ok {
+		c.Unresolved("barrier.AESGCMVersion1")
+		return "1"
+	}
+	return v
+}
+
+// c01ClosureArgs: for parameter p of the anonymous function fn, the values
+// passed for it at every call of the closure in the enclosing function; ok is
+// false when the closure value is used other than by being called.
+func c01ClosureArgs(fn *ssa.Function, p *ssa.Parameter) ([]ssa.Value, bool) {
+	idx := -1
+	for i, q := range fn.Params {
+		if q == p {
+			idx = i
+		}
+	}
+	parent := fn.Parent()
+	if idx < 0 || parent == nil {
+		return nil, false
+	}
+	var out []ssa.Value
+	for _, b := range parent.Blocks {
+		for _, in := range b.Instrs {
+			mc, ok := in.(*ssa.MakeClosure)
+			if !ok || mc.Fn != fn {
+				continue
+			}
+			if mc.Referrers() == nil {
+				return nil, false
+			}
+			for _, r := range *mc.Referrers() {
+				ci, isCall := r.(ssa.CallInstruction)
+				if !isCall || ci.Common().Value != ssa.Value(mc) || idx >= len(ci.Common().Args) {
+					return nil, false
+				}
+				out = append(out, ci.Common().Args[idx])
+			}
+		}
+	}
+	return out, len(out) > 0
 }
 
 func reQuote(s string) string {
